@@ -48,6 +48,12 @@ CHECKS["C09"] = ("model_checking", _T,
 CHECKS["C10"] = ("exploration", _T,
     "Executions of all shipped algorithms (18 algorithm/parameter configurations) with every value_selection call and every current_value logged as a domain "
     "index; TLC checks membership at every step.", _N, "DESIGN.md section 4 C10")
+CHECKS["C06"] = ("model_checking",
+    "TLC-enumerated calls with results computed from Relations.tla (helpers); TLC trace validation (AlgoMon.tla) of real DSA / A-DSA executions (moves)",
+    "Part 1: TLC enumerates calls of find_optimal / find_arg_optimal / optimal_cost_value / projection over the cost algebra of Costs.tla (negative, > 2^31, "
+    "+inf, -inf; own-cost dict and function variables; min and max) with the exact optimal value sets and costs; each is executed on the real functions. "
+    "Part 2: executions of the real DSA (A, B, C) and A-DSA computations; at every change of value TLC checks that the new value is in ArgBestLocal computed "
+    "from the value messages of that evaluation.", _N, "DESIGN.md section 4 C06")
 NOT_YET = "check not built yet in this snapshot (work in progress, see DESIGN.md section 9)"
 
 fix_commits = subprocess.run(["git", "-C", "/repo", "log", "--format=%h %s", "aeaae91..HEAD"], capture_output=True, text=True).stdout.splitlines()
